@@ -40,6 +40,12 @@ def scenario(rng, k):
     if k % 4 == 3:
         return git_scenario(rng, k)
     proj = G.base_project(rng)
+    if k % 10 == 6:
+        # one dependency listed under two spellings: the definition is refused (C14) - were it accepted, the experiment behind
+        # it would be made ready twice by the one completion of its dependency
+        for t in proj["tasks"]:
+            if t["name"] == "d":
+                t["deps"] = [":a", "//:a"]
     steps = []
     clock = 100
     if rng.random() < 0.5:
